@@ -5,6 +5,7 @@ mod c04;
 mod common;
 mod engine_checks;
 mod engine_driver;
+mod engine_sched;
 mod families;
 mod input_checks;
 mod pgn_checks;
@@ -52,6 +53,12 @@ fn main() {
         "C14" => input_checks::run_c14(tier),
         "C15" => uci_checks::run(tier),
         #[cfg(inkayaku_verif)]
+        "C07" => engine_sched::run_c07(tier),
+        #[cfg(inkayaku_verif)]
+        "C09" => engine_sched::run_c09(tier),
+        #[cfg(inkayaku_verif)]
+        "C16" => engine_sched::run_c16(tier),
+        #[cfg(inkayaku_verif)]
         "C08" => engine_checks::run_c08(tier),
         #[cfg(inkayaku_verif)]
         "C10" => engine_checks::run_c10(tier),
@@ -90,6 +97,12 @@ fn replay(id: &str, path: &str) -> i32 {
         "C15" => return uci_checks::replay(case),
         #[cfg(inkayaku_verif)]
         "C08" | "C10" | "C11" => return engine_checks::replay(id, case),
+        #[cfg(inkayaku_verif)]
+        "C07" => return engine_sched::replay_c07(case),
+        #[cfg(inkayaku_verif)]
+        "C09" => return engine_sched::replay_c09(case),
+        #[cfg(inkayaku_verif)]
+        "C16" => return engine_sched::replay_c16(case),
         "C17" => return pgn_checks::replay(case),
         "C18" => return table_check::replay_case(case),
         "C12" => {
@@ -226,7 +239,9 @@ fn run_board(prop: Prop, tier: Tier) -> i32 {
         let cr = clock_roots();
         let before = ctx.states.load(std::sync::atomic::Ordering::Relaxed);
         par_map(&cr, |p| {
-            clock_sweep(&ctx, p, CLOCK_HALVES, CLOCK_FULLS);
+            // C03 is stated for half-move clocks 0..4095 (the width of the undo field)
+            let halves: Vec<u64> = CLOCK_HALVES.iter().copied().filter(|h| prop != Prop::C03 || *h <= 4095).collect();
+            clock_sweep(&ctx, p, &halves, CLOCK_FULLS);
             if prop == Prop::C03 {
                 let all: Vec<u64> = (0..4096).collect();
                 clock_sweep(&ctx, p, &all, &[1, 77]);
